@@ -126,4 +126,3 @@ func printReport(r *interp.Report) {
 	b, _ := json.MarshalIndent(o, "", "  ")
 	fmt.Println(string(b))
 }
-
